@@ -365,7 +365,7 @@ fn observe_tree(root: &TNode, r: &RefCat) {
 // The D11 history through the public API: insert a., insert b.a., remove b.a.
 // ---------------------------------------------------------------------------
 
-// @harness props=C22 tier=quick mem=4 t=1500 fn="HashMapTreeCatalog::remove,remove_in_class,<HashMapTreeCatalog as Catalog>::lookup,Catalog::get"
+// @harness props=C22 tier=quick mem=2 t=900 fn="HashMapTreeCatalog::remove,remove_in_class,<HashMapTreeCatalog as Catalog>::lookup,Catalog::get"
 //   bound="the catalog that insert(a.), insert(b.a.) in class IN produce (built by hand: root node without entry -> a (entry, symbolic tag) -> b (entry, symbolic tag)); HashMapTreeCatalog::remove(b.a., IN); then get(a.), lookup(a.), lookup(b.a.), lookup(x.a.), get(b.a.); only the tags are symbolic; unwind 6"
 //   sym="2 tags" stubs="eq_ignore_ascii_case" cbmc="--max-field-sensitivity-array-size 1024" kani="--no-assertion-reach-checks"
 #[kani::proof]
@@ -433,7 +433,7 @@ fn lookup_get_queries(from: usize, to: usize) {
     core::mem::forget(cat);
 }
 
-// @harness props=C22,C07 tier=thorough mem=4 t=2400 fn="<HashMapTreeCatalog as Catalog>::lookup,Catalog::get (provided),lookup_in_class"
+// @harness props=C22,C07 tier=thorough mem=3 t=1500 fn="<HashMapTreeCatalog as Catalog>::lookup,Catalog::get (provided),lookup_in_class"
 //   bound="catalog of 2 classes: IN tree . -> a -> {b -> c, x} with every node's entry symbolic (absent/NotYetLoaded/FailedToLoad, u8 tag), CH tree = root node with symbolic entry; lookup and get in class IN of ., a., b.a.; unwind 7"
 //   sym="entries of 6 nodes" stubs="eq_ignore_ascii_case" cbmc="--max-field-sensitivity-array-size 1024" kani="--no-assertion-reach-checks"
 #[kani::proof]
@@ -443,7 +443,7 @@ fn c22_lookup_get_names_0_2() {
     lookup_get_queries(0, 3);
 }
 
-// @harness props=C22,C07 tier=quick mem=4 t=2400 fn="<HashMapTreeCatalog as Catalog>::lookup,Catalog::get (provided),lookup_in_class"
+// @harness props=C22,C07 tier=quick mem=3 t=1500 fn="<HashMapTreeCatalog as Catalog>::lookup,Catalog::get (provided),lookup_in_class"
 //   bound="same catalog; lookup and get in class IN of x.a., c.b.a.; unwind 7"
 //   sym="entries of 6 nodes" stubs="eq_ignore_ascii_case" cbmc="--max-field-sensitivity-array-size 1024" kani="--no-assertion-reach-checks"
 #[kani::proof]
@@ -453,7 +453,7 @@ fn c22_lookup_get_names_3_4() {
     lookup_get_queries(3, 5);
 }
 
-// @harness props=C22,C07 tier=thorough mem=4 t=2400 fn="<HashMapTreeCatalog as Catalog>::lookup,Catalog::get (provided)"
+// @harness props=C22,C07 tier=thorough mem=3 t=1500 fn="<HashMapTreeCatalog as Catalog>::lookup,Catalog::get (provided)"
 //   bound="same catalog; class separation: lookup and get of ., a., c.b.a. in class CH (root entry only) and HS (no tree); unwind 7"
 //   sym="entries of 6 nodes" stubs="eq_ignore_ascii_case" cbmc="--max-field-sensitivity-array-size 1024" kani="--no-assertion-reach-checks"
 #[kani::proof]
@@ -519,7 +519,7 @@ fn c22_step_remove_t5_cba() {
     kani::cover!(!before.present[I_CBA], "nothing to remove at the name");
 }
 
-// @harness props=C22 tier=thorough mem=5 t=2400 fn="remove_in_class,lookup_in_class"
+// @harness props=C22 tier=thorough mem=3 t=1800 fn="remove_in_class,lookup_in_class"
 //   bound="same tree; remove x.a. (a leaf whose parent a. has another child); the 5 pool names; unwind 7"
 //   sym="entries of 5 nodes" stubs="eq_ignore_ascii_case" cbmc="--max-field-sensitivity-array-size 1024 --unwindset _RINvNtCs8xvirJzNMvV_4core3ptr9drop_glueSTNtNtNtCskjFBwtpsoHr_8quandary4name5label8LabelBufINtNtNtNtBJ_2db13hash_map_tree4node4NodeINtNtB4_6option6OptionINtNtB1x_7catalog5EntryNtNtNtB1v_7catalog17kani_catalog_tree6NoZonehEEEEEBJ_.0:1" kani="--no-assertion-reach-checks"
 #[kani::proof]
@@ -530,7 +530,7 @@ fn c22_step_remove_t5_xa() {
     kani::cover!(before.present[I_XA] && before.present[I_A], "removed x.a. below an entry at a.");
 }
 
-// @harness props=C22 tier=thorough mem=5 t=2400 fn="remove_in_class,lookup_in_class"
+// @harness props=C22 tier=thorough mem=3 t=1800 fn="remove_in_class,lookup_in_class"
 //   bound="same tree; remove b.a. (an inner node with a child); the 5 pool names; unwind 7"
 //   sym="entries of 5 nodes" stubs="eq_ignore_ascii_case" cbmc="--max-field-sensitivity-array-size 1024 --unwindset _RINvNtCs8xvirJzNMvV_4core3ptr9drop_glueSTNtNtNtCskjFBwtpsoHr_8quandary4name5label8LabelBufINtNtNtNtBJ_2db13hash_map_tree4node4NodeINtNtB4_6option6OptionINtNtB1x_7catalog5EntryNtNtNtB1v_7catalog17kani_catalog_tree6NoZonehEEEEEBJ_.0:1" kani="--no-assertion-reach-checks"
 #[kani::proof]
@@ -541,7 +541,7 @@ fn c22_step_remove_t5_ba() {
     kani::cover!(before.present[I_BA] && before.present[I_CBA], "removed an inner entry above another entry");
 }
 
-// @harness props=C22 tier=thorough mem=5 t=2400 fn="remove_in_class,lookup_in_class"
+// @harness props=C22 tier=thorough mem=3 t=1800 fn="remove_in_class,lookup_in_class"
 //   bound="same tree; remove the root name; the 5 pool names; unwind 7"
 //   sym="entries of 5 nodes" stubs="eq_ignore_ascii_case" cbmc="--max-field-sensitivity-array-size 1024 --unwindset _RINvNtCs8xvirJzNMvV_4core3ptr9drop_glueSTNtNtNtCskjFBwtpsoHr_8quandary4name5label8LabelBufINtNtNtNtBJ_2db13hash_map_tree4node4NodeINtNtB4_6option6OptionINtNtB1x_7catalog5EntryNtNtNtB1v_7catalog17kani_catalog_tree6NoZonehEEEEEBJ_.0:1" kani="--no-assertion-reach-checks"
 #[kani::proof]
@@ -552,7 +552,7 @@ fn c22_step_remove_t5_root() {
     kani::cover!(before.present[I_ROOT] && before.present[I_XA], "removed the root entry above other entries");
 }
 
-// @harness props=C22 tier=thorough mem=8 t=3400 fn="remove_in_class,lookup_in_class"
+// @harness props=C22 tier=thorough mem=10 t=2400 fn="remove_in_class,lookup_in_class"
 //   bound="chain . -> a -> b, every entry symbolic; remove b.a.: pruning may cascade through a. up to the root, each of which may hold an entry (defect D11 at two levels); the 5 pool names; unwind 7"
 //   sym="entries of 3 nodes" stubs="eq_ignore_ascii_case" cbmc="--max-field-sensitivity-array-size 1024 --unwindset _RINvNtCs8xvirJzNMvV_4core3ptr9drop_glueSTNtNtNtCskjFBwtpsoHr_8quandary4name5label8LabelBufINtNtNtNtBJ_2db13hash_map_tree4node4NodeINtNtB4_6option6OptionINtNtB1x_7catalog5EntryNtNtNtB1v_7catalog17kani_catalog_tree6NoZonehEEEEEBJ_.0:1" kani="--no-assertion-reach-checks"
 #[kani::proof]
